@@ -62,6 +62,9 @@ theorem inv {w : Nat} {s : IncKS.State α} (h : Reach w s) : s.window = w ∧ s.
   | fit xs _ ih => exact ih
   | @update s v _ ih =>
     unfold IncKS.update
+    cases hr : s.ref with
+    | none => simpa using ih
+    | some r =>
     cases he : s.q.enqueue v with
     | error e => simpa using ih
     | ok p =>
@@ -70,9 +73,7 @@ theorem inv {w : Nat} {s : IncKS.State α} (h : Reach w s) : s.window = w ∧ s.
       simp only []
       split
       · exact ⟨ih.1, by rw [hm]; exact ih.2⟩
-      · split
-        · exact ⟨ih.1, by rw [hm]; exact ih.2⟩
-        · exact ⟨ih.1, by rw [hm]; exact ih.2⟩
+      · exact ⟨ih.1, by rw [hm]; exact ih.2⟩
   | reset _ ih => exact ⟨ih.1, by simpa [IncKS.reset, CQ.clear] using ih.2⟩
 end IncKSReach
 
@@ -105,6 +106,9 @@ theorem inv {k : X → X → α} {w : Nat} {cs : Option Nat} {s : MMD.Stream α 
   | fit xs _ ih => exact ih
   | @update s v _ ih =>
     unfold MMD.Stream.update
+    cases hr : s.ref with
+    | none => simpa using ih
+    | some r =>
     cases he : s.q.enqueue v with
     | error e => simpa using ih
     | ok p =>
@@ -113,9 +117,7 @@ theorem inv {k : X → X → α} {w : Nat} {cs : Option Nat} {s : MMD.Stream α 
       simp only []
       split
       · exact ⟨ih.1, ih.2.1, by rw [hm]; exact ih.2.2⟩
-      · split
-        · exact ⟨ih.1, ih.2.1, by rw [hm]; exact ih.2.2⟩
-        · exact ⟨ih.1, ih.2.1, by rw [hm]; exact ih.2.2⟩
+      · exact ⟨ih.1, ih.2.1, by rw [hm]; exact ih.2.2⟩
   | reset _ ih => exact ⟨ih.1, ih.2.1, by simpa [MMD.Stream.reset, CQ.clear] using ih.2.2⟩
 end MMDReach
 
